@@ -1,16 +1,21 @@
 // instantiation TU for tools/c01src/gen_src.py: forces the instantiations whose bodies are translated
 #include <cstddef>
 #include "rkcommon/tasking/parallel_for.h"
+#include "rkcommon/tasking/parallel_foreach.h"
 namespace c01inst {
   struct FI { void operator()(int) const {} };
   struct FS { void operator()(size_t) const {} };
   struct GU { void operator()(unsigned, unsigned) const {} };
   struct GI { void operator()(int, int) const {} };
+  struct FE { void operator()(unsigned char &) const {} };
   inline void use()
   {
     rkcommon::tasking::parallel_for(int(5), FI());
     rkcommon::tasking::parallel_for(size_t(5), FS());
     rkcommon::tasking::parallel_in_blocks_of<1024>(unsigned(5), GU());
     rkcommon::tasking::parallel_in_blocks_of<4>(int(5), GI());
+    unsigned char arr[8] = {0};
+    rkcommon::tasking::parallel_foreach(arr + 0, arr + 8, FE());
+    rkcommon::tasking::parallel_foreach(arr, FE());
   }
 }
